@@ -198,7 +198,7 @@ impl CompetitionSim {
         let n_traders = *rc.weighted(&[(2, 2usize), (2, 3), (2, 5), (4, 6), (4, 7), (3, 8), (2, 10), (2, 12), (1, 4), (1, 9), (1, 11)]);
         let t0 = *rc.weighted(&[(6, 1_700_000_000i64), (2, 0), (1, 1), (1, 1 << 40), (1, i64::MAX / 4)]);
         let start_delay = pick_i64(&mut rc, &[1, 1, 2, 10, 100, 3600]);
-        let duration = *rc.weighted(&[(1, 1i64), (2, 5), (3, 60), (3, 600), (2, 86_400), (1, 30 * 86_400), (1, i64::MAX / 4)]);
+        let duration = *rc.weighted(&[(1, 1i64), (1, 5), (3, 60), (4, 600), (3, 86_400), (1, 30 * 86_400), (1, i64::MAX / 4)]);
         let ext_duration = match rc.below(8) {
             0 => 1,
             1 => 10,
@@ -308,9 +308,11 @@ impl CompetitionSim {
         let unit = match clock_mode {
             0 => 0i64,
             1 => 1,
-            2 => merge_window.min(100_000),
-            _ => (duration / 16).max(1),
+            2 => merge_window.min(duration / 32).max(1),
+            _ => (duration / 64).max(1),
         };
+        // a step of about one merge window ends a short competition: draw it rarely unless it fits many times
+        let p_window_step = if merge_window < duration / 16 { 10 } else { 1 }; // percent of trades
         while steps.len() < len {
             if active < n_traders && rp.chance(1, 12) {
                 active += 1;
@@ -322,12 +324,12 @@ impl CompetitionSim {
                 let (before, after) = draw_volume_pair(&mut rp, vol_profile, threshold);
                 let dt = match clock_mode {
                     0 => 0,
+                    _ if rp.below(100) < p_window_step => merge_window.min(1 << 40).saturating_add(rp.range_i64(-1, 1)).max(0),
                     _ => match rp.below(10) {
-                        0..=4 => 0,
-                        5 | 6 => rp.range_i64(0, unit.max(1)),
-                        7 => merge_window.min(1 << 40).saturating_add(rp.range_i64(-1, 1)).max(0),
+                        0..=5 => 0,
+                        6 | 7 => rp.range_i64(0, unit.max(1)),
                         8 => unit,
-                        _ => rp.range_i64(0, 3),
+                        _ => rp.range_i64(0, 2),
                     },
                 };
                 let twist = if p_byz > 0 && rp.below(100) < p_byz {
@@ -368,12 +370,16 @@ impl CompetitionSim {
                 } else if p_extreme > 0 && rp.below(100) < p_extreme {
                     ClockStep::Rel(*rp.pick(&[i64::MAX / 2, i64::MAX, 1i64 << 50]))
                 } else {
+                    let late_in_plan = steps.len() * 3 > len * 2;
                     match rp.below(10) {
-                        0..=2 => ClockStep::ToEnd(pick_i64(&mut rp, &[-2, -1, 0, 0, 1, 2])),
+                        0..=2 if late_in_plan || rp.chance(1, 8) => ClockStep::ToEnd(pick_i64(&mut rp, &[-2, -1, 0, 0, 1, 2])),
+                        0..=2 => ClockStep::ToEnd(pick_i64(&mut rp, &[-3, -2, -1, -1, 0, 0])),
                         3 => ClockStep::ToStart(pick_i64(&mut rp, &[-1, 0, 1])),
                         4 => ClockStep::ToEnd(-rp.range_i64(0, ext_cap.min(1 << 40))),
                         5 => ClockStep::ToEnd(-rp.range_i64(0, ext_duration.min(1 << 40))),
-                        6 => ClockStep::Rel(merge_window.min(1 << 40).saturating_add(rp.range_i64(-1, 1)).max(0)),
+                        6 if merge_window < duration / 4 || rp.chance(1, 6) => {
+                            ClockStep::Rel(merge_window.min(1 << 40).saturating_add(rp.range_i64(-1, 1)).max(0))
+                        }
                         _ => ClockStep::Rel(rp.range_i64(0, unit.saturating_mul(4).max(2))),
                     }
                 };
@@ -643,8 +649,15 @@ impl<'a> Sim<'a> {
         }
         if twist.byzantine() {
             if out.ok {
+                if !self.m.ongoing(now) {
+                    // outside the window the program returns before it looks at the event: nothing is credited
+                    // (the invariants after the step check that nothing changed)
+                    self.obs.probe("byz_ignored_outside_window");
+                    return (false, false);
+                }
                 // Not a C39 clause; the model cannot tell whom the program credited, so the run ends here.
                 self.obs.probe("byzantine_accepted");
+                self.obs.probe(&format!("byzantine_accepted_{}", twist.tag()));
                 return (false, false);
             }
             self.obs.fault(twist.tag());
